@@ -213,3 +213,4 @@ PROP = {
 }
 PROP["level_text"] += ' The catalogue has grown to about 1300 requests: guards after call histories, after shape modifiers (Resize, assignment of another size), on tables scaled by 2^-43..2^43 and at 1e-3/1e-6/1e-9 of the extrapolation tolerance.'
 PROP["level_text"] += " Thorough tier: 6e6 coverage-guided API sequences (libFuzzer, clang ASan+UBSan) on pools of Vector/Matrix/Interpolation objects and the guarded free functions, judged for memory safety and failure status only."
+PROP["level_text"] += ' Later additions: edge-of-format tables and matrices (abscissae one ulp apart, around 2^53, subnormal spacing, regular by one ulp), unknown method names with equal limits, moved-from vectors and matrices, brackets narrower than the accuracy, an edge tolerance of 2.56 ulp, tables next to the largest double.'
